@@ -331,7 +331,9 @@ def oracle_history(c, out):
     now = 1000
     spec = {}            # key -> (val, trigs incl. key, dl): what the cache holds if every completed operation took effect
     foreign = False
-    lossy = False        # a store the wire format cannot carry has been issued: spec and server may differ from here on
+    lossy = set()        # keys whose latest store the wire format cannot carry (empty key, or a trigger name that is empty or
+                         # contains NUL): for these keys the server may differ from what the completed operations say
+    l1flags = c[2]
     seen_gen = [dict() for _ in range(ns)]   # server -> generation -> (key, value, dl)
     for o in c[3:]:
         f = o.split(':')
@@ -341,7 +343,9 @@ def oracle_history(c, out):
         elif op == 'S':
             k, v, dl, ts = unhex(f[2]), unhex(f[3]), int(f[4]), parse_trigs(f[5])
             if k == b'' or any(bad_name(t) for t in ts):
-                lossy = True
+                lossy.add(k)
+            else:
+                lossy.discard(k)
             spec[k] = (v, ts | {k}, dl)
         elif op == 'R':
             t = unhex(f[2])
@@ -349,6 +353,7 @@ def oracle_history(c, out):
                 del spec[k]
         elif op == 'C':
             spec.clear()
+            lossy.clear()
         elif op == 'W':
             foreign = True   # a foreign peer may have changed the server: from here on only checks (1)-(3) apply
             ti += 1
@@ -380,8 +385,16 @@ def oracle_history(c, out):
                     return ('fetch-stale-value', 'client returned %s, the server holds %s (key %s)' % (cl['v'][:40].hex(), sv['v'][:40].hex(), k.hex()))
                 if cl['dl'] != sv['dl']:
                     return ('fetch-stale-deadline', 'client deadline %d, server %d' % (cl['dl'], sv['dl']))
-                if op == 'F' and 0 not in k and not sv['t'] <= cl['t']:
-                    return ('fetch-triggers-missing', 'client trigger set lacks a trigger the server holds')
+                if op == 'F':
+                    # the trigger set comes back unchanged; a node with an L1 may add the triggers of its own older copy
+                    # (superset: over-invalidation only). Names with NUL cannot be carried (known finding).
+                    exact = l1flags[int(f[1])] == '0'
+                    if not (sv['t'] == cl['t'] if exact else sv['t'] <= cl['t']):
+                        if any(bad_name(t) for t in sv['t']):
+                            return ('name-with-nul-or-empty-not-carried', 'fetched trigger set differs from the server\'s: a name '
+                                    'containing NUL (here possibly the key itself) is split on the wire')
+                        return ('fetch-triggers-changed', 'client trigger set %s the trigger set the server holds' % (
+                            'differs from' if exact else 'lacks a member of'))
             # (3) one generation = one store event on a server
             if sv is not None:
                 old = seen_gen[idx].get(sv['g'])
@@ -400,8 +413,8 @@ def oracle_history(c, out):
                 bad = 'server holds (%s,%d,%d triggers), completed operations say (%s,%d,%d triggers)' % (
                     sv['v'][:40].hex(), sv['dl'], len(sv['t']), e[0][:40].hex(), e[2], len(e[1]))
             if bad and not foreign:
-                if lossy:
-                    return ('name-with-nul-or-empty-not-carried', bad + ' [after a store with an empty key or a trigger name that is empty or contains NUL]')
+                if k in lossy:
+                    return ('name-with-nul-or-empty-not-carried', bad + ' [the latest store of this key had an empty key or a trigger name that is empty or contains NUL]')
                 return ('completed-operation-lost', bad)
     return None
 
